@@ -494,7 +494,7 @@ func c13Run(b core.Batch, r *core.Recorder) {
 func c13Plan(tier string, seed int64) []core.Batch {
 	n, ic := 40, 2
 	if tier == "thorough" {
-		n, ic = 900, 10
+		n, ic = 5000, 20
 	}
 	var bs []core.Batch
 	for _, be := range []string{"memory", "file"} {
@@ -514,6 +514,6 @@ func init() {
 		Plan:        c13Plan,
 		Run:         c13Run,
 		Parallel:    4,
-		Floors:      map[string]map[string]int64{"quick": {"populations_over_limit": 60, "populations_below_limit": 20, "expiry_cycles_checked": 60, "interval_change_checks": 4}, "thorough": {"populations_over_limit": 900, "populations_below_limit": 300, "expiry_cycles_checked": 60, "interval_change_checks": 20}},
+		Floors:      map[string]map[string]int64{"quick": {"populations_over_limit": 60, "populations_below_limit": 20, "expiry_cycles_checked": 60, "interval_change_checks": 4}, "thorough": {"populations_over_limit": 3000, "populations_below_limit": 1000, "expiry_cycles_checked": 60, "interval_change_checks": 40}},
 	})
 }
